@@ -1199,6 +1199,8 @@ class Interp:
                 return [EnumV(it.cls, it.qual, n, v, it.cls.kind == 'intenum') for n, v in ms]
         if isinstance(it, DictV):
             return [k for k, _ in it.items]
+        if isinstance(it, Str) and it.is_lit() and len(it.text()) <= 64:
+            return [Str.lit(ch) for ch in it.text()]      # iterating a literal string: its characters
         if isinstance(it, Opaque) and it.label == 'range' and all(
                 isinstance(a, Sym) and a.is_const() for a in it.args):
             vals = [int(a.const_value()) for a in it.args]
@@ -2209,6 +2211,11 @@ class Interp:
             return Const(isinstance(op, ast.IsNot))
         if not isinstance(op, (ast.Is, ast.IsNot, ast.In, ast.NotIn)):
             a, b = num_of(a), num_of(b)
+            # a bool compared with a number is the number 1 / 0 (`count < verbose`)
+            if isinstance(a, Sym) and isinstance(b, Const) and isinstance(b.v, bool):
+                b = Sym.const(int(b.v))
+            elif isinstance(b, Sym) and isinstance(a, Const) and isinstance(a.v, bool):
+                a = Sym.const(int(a.v))
             if isinstance(a, Inst) and a.cls.kind == 'namedtuple':
                 a = Tup(tuple(v for _, v in a.fields))
             if isinstance(b, Inst) and b.cls.kind == 'namedtuple':
